@@ -106,6 +106,15 @@ def fmt_to_cat(lit, cat="crate::vb64::cat2", args=None):
     return expr
 
 
+def soft_rules(text):
+    """the global renaming rules (T-STR literal patterns), for source text a unit's own rewrite carries into its replacement
+    (a closure body, say): the token-level pass skips whatever another rewrite replaces"""
+    def ren(m):
+        kind_ = "char" if m.group(2) == "'" else "str"
+        return f".{m.group(1)}_{kind_}({m.group(2)}"
+    return re.sub(r"\.(trim_start_matches|trim_end_matches|strip_prefix|strip_suffix)\(\s*(['\"])(?=(?:[^'\"\\]|\\.)+\2\s*\))", ren, text)
+
+
 GHOST_PARAM = "Tracked(w): Tracked<&mut World>"
 GHOST_ARG = "Tracked(&mut *w)"
 
@@ -733,6 +742,17 @@ class Piece:
                 if toks[k].text == "PathBuf" and toks[k + 1].text == ":" and toks[k + 2].text == ":" and toks[k + 3].text == "from" and toks[k + 4].text == "(" \
                         and toks[k - 1].text != ":":
                     self._add(toks[k].start, toks[k + 3].end, "crate::vpath::to_path", "T-STR", order=-99)
+        # T-STR: `.trim_start_matches(P)` / `.trim_end_matches(P)` / `.strip_prefix(P)` / `.starts_with(P)` .. take any pattern type;
+        # with a character or string literal the call goes to the method of the same meaning for that pattern type (prelude stdx,
+        # trait StrExt, exact specs) - only the method's name changes
+        if "stdx" in self.unit.preludes:
+            for k in range(kb, k1 - 3):
+                if toks[k].text == "." and toks[k + 1].kind == "ident" and toks[k + 1].text in ("trim_start_matches", "trim_end_matches", "strip_prefix", "strip_suffix") \
+                        and toks[k + 2].text == "(" and toks[k + 4].text == ")":
+                    lit = toks[k + 3]
+                    kind_ = "char" if lit.text.startswith("'") and lit.kind != "lifetime" else "str" if lit.text.startswith('"') else None
+                    if kind_:
+                        self._add(toks[k + 1].start, toks[k + 1].end, f"{toks[k + 1].text}_{kind_}", "T-STR", order=-99)
         # T-CONST: a function-local `const NAME: &T = ..;` gets the `'static` the elision stands for (Verus wants it written)
         for k in range(kb + 1, k1 - 4):
             if toks[k].text == "const" and toks[k + 1].kind == "ident" and toks[k + 2].text == ":" and toks[k + 3].text == "&" \
